@@ -75,7 +75,13 @@ type PrintCtx struct {
 func (s *PrintCtx) source() *Source { return s.cachedSource.Extract(s.stackFrame) }
 
 func (s *PrintCtx) setentry(e *Entry) {
+	// the context comes from a pool: forget the read position too. A
+	// marshaller that used the read half of the buffer interface
+	// (Read, Next, ...) left off > 0 behind, which cut the head off the
+	// following records or made Bytes() slice out of range.
 	s.buf = s.buf[:0]
+	s.off = 0
+	s.lastRead = opInvalid
 
 	s.jsonMode = e.useJSON
 	useColor := e.useColor
